@@ -103,26 +103,24 @@ def consistent(n, vd, asg, strict_unit):
     return not neg
 
 
-def smt_sat(n, vd, clauses, assumptions, strict_unit, limit=14):
-    """is there an assignment of the constraint variables (and other variables) satisfying the clauses and the
-    assumptions whose asserted constraints have no negative cycle?  Brute force over the constraint variables."""
-    cvars = sorted(vd.keys())
-    if len(cvars) > limit:
-        return None
-    base = {}
-    for l in assumptions:
-        if base.get(l[0], l[1]) != l[1]:
+def smt_sat(n, vd, clauses, assumptions, strict_unit, limit=None):
+    """is there an assignment satisfying the clauses and the assumptions whose asserted constraints have no
+    negative cycle?  Lazy DPLL(T): propositional model, theory check, blocking clause from a minimised core."""
+    cls = [list(c) for c in clauses]
+    for _ in range(20000):
+        m = S.solve(cls, list(assumptions))
+        if m is None:
             return False
-        base[l[0]] = l[1]
-    free = [v for v in cvars if v not in base]
-    for bits in itertools.product([True, False], repeat=len(free)):
-        asg = dict(base)
-        asg.update(zip(free, bits))
-        if not consistent(n, vd, asg, strict_unit):
-            continue
-        if S.solve(clauses, list(asg.items())) is not None:
+        asserted = {b: m[b] for b in vd if b in m}
+        if consistent(n, vd, asserted, strict_unit):
             return True
-    return False
+        core = dict(asserted)
+        for b in list(core):
+            trial = {k: v for k, v in core.items() if k != b}
+            if not consistent(n, vd, trial, strict_unit):
+                core = trial
+        cls.append([(b, not v) for b, v in core.items()])
+    return None
 
 
 def show_w(w):
